@@ -49,6 +49,10 @@ func runC14(c *core.Ctx) {
 		minMTU = 6
 	}
 	mtu := minMTU + []int{8, 0, 1, 2, 4, 20, 40, 1194}[t.Intn(8)] + t.Intn(3)
+	if t.Chance(1, 200) {
+		mtu = []int{32770, 40000, 65535}[t.Intn(3)] // sizes at which 16-bit arithmetic on aggregation sizes would wrap
+		c.Probe("jumbo-mtu")
+	}
 	pay := &codecs.H265Payloader{AddDONL: donl, SkipAggregation: skipAgg}
 	rx := &codecs.H265Packet{}
 	rx.WithDONL(donl)
